@@ -6,6 +6,18 @@ from collections import defaultdict, deque
 import re
 
 _GEN = re.compile(r"::<[^<>]*>")
+_GEN_KEEP_IMPL = re.compile(r"::<(?!impl )[^<>]*>|(?<=[A-Za-z0-9_\]])<[^<>]*>")
+
+
+def norm_keep_impl(p):
+    if not p:
+        return p
+    prev = None
+    while prev != p:
+        prev = p
+        p = _GEN_KEEP_IMPL.sub("", p)
+    return p
+
 
 
 def norm(p):
@@ -21,6 +33,7 @@ def norm(p):
 
 
 _AS = re.compile(r"^<.* as ([^<>]+)>::([A-Za-z0-9_]+)$")
+_IMPL = re.compile(r"::<impl ([^<> ]+) for [^<>]*>::([A-Za-z0-9_]+)$")
 
 
 def pm(p, suffix):
@@ -28,10 +41,11 @@ def pm(p, suffix):
     `<T as Trait>::method` also matches the suffix `Trait::method`."""
     if not p:
         return False
+    raw = p
     p = norm(p)
     if p == suffix or p.endswith("::" + suffix) or (suffix.startswith("<") and p.endswith(suffix)):
         return True
-    m = _AS.match(p)
+    m = _AS.match(p) or _IMPL.search(norm_keep_impl(raw))
     if m:
         q = "%s::%s" % (m.group(1), m.group(2))
         return q == suffix or q.endswith("::" + suffix)
